@@ -880,18 +880,24 @@ func runInherit(c *mon.Case, sp spec) {
 	}
 	// contexts (transport independent: once, on inproc)
 	if hasCtx(proto) && tr == "inproc" {
+		type nv struct {
+			n string
+			v interface{}
+		}
+		var plan []nv
 		for _, n := range optNames {
-			var v interface{}
 			switch {
 			case durOpts[n]:
-				v = 7 * time.Second
+				// also the accepted zero ("no limit") must arrive in the new context as zero
+				plan = append(plan, nv{n, 7 * time.Second}, nv{n, time.Duration(0)}, nv{n, 3 * time.Second})
 			case intOpts[n]:
-				v = 7
+				plan = append(plan, nv{n, 7})
 			case boolOpts[n]:
-				v = true
-			default:
-				continue
+				plan = append(plan, nv{n, true}, nv{n, false})
 			}
+		}
+		for _, e := range plan {
+			n, v := e.n, e.v
 			if err, pan, _ := safeSet(s, n, v); pan != nil || err != nil {
 				continue
 			}
